@@ -96,13 +96,16 @@ func recordsScenario(s *Sim, params map[string]string) {
 	allCodecs := []int8{0, 1, 2, 3, 4}
 	magicSets := [][]int8{{2}, {2}, {1}, {0}, {0, 1, 2}, {1, 2}}
 	ms := magicSets[t.Intn("cfg", len(magicSets))]
-	if fetchCeil < 4 {
+	if fetchCeil < 5 {
+		// Conn only speaks fetch v2, v5 and v10: below v5 it gets down-converted
+		// message sets, which cannot represent header-only batches or headers
 		ms = [][]int8{{1}, {0}, {0, 1}}[t.Intn("cfg", 3)]
 	}
 	relGaps := t.Intn("cfg", 3) == 0 // v1 wrappers whose relative inner offsets have compaction gaps
 	for pi := int32(0); pi < 3; pi++ {
 		p := cl.Part(topic, pi)
-		o := LayoutOpts{Magics: ms, Codecs: allCodecs, Holes: true, Headers: true, Stream: "layout"}
+		// (header-only batches and batches without their tail: what log compaction leaves behind)
+		o := LayoutOpts{Magics: ms, Codecs: allCodecs, Holes: true, EmptyBatch: true, MissingTail: true, Headers: true, Stream: "layout"}
 		p.LogStart = int64(t.Intn("layout", 50))
 		p.LEO = p.LogStart
 		ts := int64(1600000000000)
@@ -416,6 +419,13 @@ func recordsScenario(s *Sim, params map[string]string) {
 							magics = append(magics, b.Magic)
 						}
 					}
+				}
+				if len(want) == 0 && errors.Is(rerr, kafka.RequestTimedOut) {
+					// nothing at or after the offset in this response: the legacy API
+					// reports the end of an empty batch as "timed out" once the fetch
+					// deadline has passed
+					s.Count("empty-batch-timed-out")
+					continue
 				}
 				if !errors.Is(rerr, io.EOF) || cerr != nil {
 					s.Fail("C05", "R2-conn-error", "%s: reading a well-formed response ended with %v / Close %v after %d of %d messages", what, rerr, cerr, len(got), len(want))
